@@ -12,6 +12,14 @@ def run(rep, tier):
                                       per_op=40 if quick else 500, weights={"xp": 6, "xp_assign": 2, "cmux": 3, "cmux_assign": 2, "cmux_assign_neg": 2, "ggsw_xp": 0.5, "ggsw_xp_assign": 0.5})
     events, bad = kspipe.run_and_validate(rep, wd, path, "c04", shards=14, sub="xp")
     nb = kspipe.report(rep, events, bad, {"sem", "key"}, "c04")
+    # GGSW from GGLWE (row expansion through the tensor key) and GGLWE (x) GGSW (Ggsw.tla)
+    gpath, gn_all, gn = kspipe.gen_descs(rep, wd, "Core/Gen_Ggsw", "Core/Gen_Ggsw_c04_quick" if quick else "Core/Gen_Ggsw_c04_thorough", "c04g", per_op=40 if quick else 600)
+    gevents, gbad = kspipe.run_and_validate(rep, wd, gpath, "c04g", shards=12 if quick else 14, sub="ggsw", trace_module="Core/GgswTrace")
+    nb += kspipe.report(rep, gevents, gbad, {"sem", "key"}, "c04g")
+    bad = bad + [(i + len(events), k) for i, k in gbad]
+    events = events + gevents
+    n_all += gn_all
+    n += gn
     vac = {i for i, k in bad if k == "vacuous"}
     ops = {}
     for i, e in enumerate(events):
@@ -27,10 +35,10 @@ def run(rep, tier):
     rep.rule = ("%d of the %d behaviours enumerated by TLC from Gen_C04 (per-operation stratified, seeded): GGSW(m2) and GLWE(m1) encrypted by the library, operation on 4 back-ends x 2 fills, N=8; "
                 "KsTrace/Xp.tla recomputes from raw limbs and the clear secret (a) every GGSW cell's phase = m2*G_row*(1|s_col) within the configured bound, (b) the EXACT gadget product over all rank+1 "
                 "columns from the logged cells (GGSW <= 16 bits), (c) phase(result) = m2 * phase(input) (negacyclic, exact integers) within the worst-case gadget bound; CMux must return the selected branch; "
-                "GGSW x GGSW is checked cell by cell (rows beyond the input's are zero); distinct = behaviours" % (n, n_all))
+                "GGSW x GGSW and GGLWE x GGSW are checked cell by cell (rows beyond the input's are zero); GGSW from GGLWE: column 0 copied, every other column = s_j * phase(column 0) within the tensor-key gadget bound, result a valid GGSW; distinct = behaviours" % (n, n_all))
     for e in events[:: max(1, len(events) // 3)][:3]:
-        rep.sample({k: e[k] for k in e if k not in ("outs", "key", "scr", "a", "b", "sk_in", "sk_out")})
+        rep.sample({k: e[k] for k in e if k not in ("outs", "key", "tsk", "scr", "a", "b", "sk_in", "sk_out")})
     log("[C04] %d behaviours, %d rejected, %d with vacuous bound" % (len(events), nb, len(vac)))
     rep.assumptions += ["N = 8; radices 3 and 4; precisions <= 24 bits (native-integer phase arithmetic in TLC)",
-                        "GGSW row expansion from a GGLWE (tensor key), GGLWE external product and GGSW key-switch/automorphism are not covered by this corpus",
+                        "GGSW row expansion and GGLWE external product: bound level, N = 8 (GGSW key-switch / automorphism are under C03)",
                         "noise is checked against the worst-case bound implied by the configured truncation of the Gaussian"]
